@@ -1,6 +1,5 @@
-import SR.Drv.Loop
-/-! Driver commands for C14 (stub). -/
+import SR.Drv.Sem
+/-! Driver commands for C14: `sc-run`, `lin-run` (model), `o-ser sc`, `o-incl`, `o-res` (oracles); see `SR/Drv/Sem.lean`. -/
 namespace SR.Drv.C14
-def handle : Drv.Handler
-  | _, _ => none
+def handle : Drv.Handler := SR.Drv.Sem.handle
 end SR.Drv.C14
